@@ -25,7 +25,7 @@ def install(it):
             if prim == "func.jet":
                 primals = args[1] if len(args) > 1 else kwargs.get("primals")
                 series = args[2] if len(args) > 2 else kwargs.get("series")
-                ev = {"prim": prim, "fn": fn, "primals": primals, "series": series, "site": site, "caller": itp.call_stack[-1] if itp.call_stack else "<top>"}
+                ev = {"prim": prim, "fn": fn, "primals": primals, "series": series, "site": site, "caller": itp.call_stack[-1] if itp.call_stack else "<top>", "is_tcoeff": kwargs.get("is_tcoeff", False)}
             elif prim == "func.jvp":
                 primals = args[1] if len(args) > 1 else kwargs.get("primals")
                 tangents = args[2] if len(args) > 2 else kwargs.get("tangents")
@@ -72,6 +72,11 @@ def check_event(it, ev, is_vf_call, time_atom, depth=0, sites=None):
     out = []
     if sites is not None:
         sites.add((ev["caller"].rsplit(".", 1)[-1], ev["prim"], ev["site"]))
+    if ev["prim"] == "func.jet":
+        # every jet site that is examined (also the nested ones) is remembered with its convention
+        if not hasattr(it, "jet_conventions"):
+            it.jet_conventions = []
+        it.jet_conventions.append({"caller": ev["caller"], "site": ev["site"], "is_tcoeff": ev.get("is_tcoeff", False)})
     primals = ev["primals"]
     if not isinstance(primals, (list, tuple)):
         return [(None, f"{ev['caller']} {ev['prim']}", f"primals are not a static sequence: {T.show(primals, 2)}")]
